@@ -83,7 +83,7 @@ PROFILES = {
     'C08': dict(emit_at_once=0.35, falsy_dedup=True, pool=['timed_window', 'partition_t', 'timed_window_unique', 'map', 'filter', 'buffer', 'flatten'],
                 need=['timed_window', 'partition_t', 'timed_window_unique'], modes=['async', 'async', 'threaded'], md=0.3,
                 sinks=['native', 'tornado', 'future', 'sync'], bursts=True),
-    'C13': dict(off_grid=True, fail_below_rate_limit=True, pool=['rate_limit', 'delay', 'map', 'filter', 'union', 'buffer'], need=['rate_limit', 'delay'], stalls=True,
+    'C13': dict(off_grid=True, fail_below_rate_limit=True, restarts=True, pool=['rate_limit', 'delay', 'map', 'filter', 'union', 'buffer'], need=['rate_limit', 'delay'], stalls=True,
                 modes=['async', 'async', 'threaded'], md=0.2, sinks=['sync', 'native', 'tornado', 'future'], bursts=True),
     'C14': dict(late_feeder=True, late_subscriber=True, pool=['latest', 'map', 'filter', 'union'], need=['latest'], feedback_sink=True, modes=['async', 'async', 'threaded'], md=0.4, stalls=True,
                 sinks=['native', 'tornado', 'future', 'sync'], bursts=True),
@@ -696,6 +696,8 @@ class G:
                     n = self.pick(targets)
                     fails.append({'node': n['id'], 'call': r.randrange(0, 6),
                                   'when': self.pick(['pre', 'post']) if n.get('kind') in ('native', 'tornado') else 'pre'})
+                    if n['op'] == 'map_async' and self.chance(0.3):
+                        fails[-1]['when'] = 'call'
         if pf.get('fail_below_rate_limit') and self.chance(0.15):
             # a consumer right below a rate_limit raises once and the producers carry on: a delivery that failed
             # is a delivery all the same - the next element keeps its distance
